@@ -1285,6 +1285,11 @@ impl ServerSession {
             ],
         };
 
+        // Packets must be serialized in the order they are returned (and sent), as each one may be
+        // compressed against the previously serialized header of its chunk stream.
+        let reset_payload = reset_message.into_message_payload(self.get_epoch(), stream_id)?;
+        let reset_packet = self.serializer.serialize(&reset_payload, false, false)?;
+
         let stream_begin_payload =
             stream_begin_message.into_message_payload(self.get_epoch(), stream_id)?;
         let stream_begin_packet = self
@@ -1299,9 +1304,6 @@ impl ServerSession {
 
         let data2_payload = data2_message.into_message_payload(self.get_epoch(), stream_id)?;
         let data2_packet = self.serializer.serialize(&data2_payload, false, false)?;
-
-        let reset_payload = reset_message.into_message_payload(self.get_epoch(), stream_id)?;
-        let reset_packet = self.serializer.serialize(&reset_payload, false, false)?;
 
         Ok(vec![
             ServerSessionResult::OutboundResponse(reset_packet),
